@@ -125,3 +125,40 @@ Definition holds_sched (a o : list N) : bool :=
           is_prefix_n items (skipn 4 plain)))
     | _, _ => false
     end.
+
+(* ---- family shortw: sinks that take at most maxw bytes per call and cap bytes in total; stores that
+   return short positioned reads.  write_all / read_exact_at loops make the result independent of maxw;
+   a full sink surfaces as WriteZero after exactly cap bytes. ---- *)
+(* args [kind; seed; size; bs; op; maxw; cap; okind; q...] *)
+Definition limit_out (cap : N) (rc : list N) (out : bytes) : list N :=
+  if blen B3 out <=? cap then rc ++ [blen B3 out; dg out]
+  else [6; kcode KWriteZero; cap; dg (firstn (N.to_nat cap) out)].
+Definition ranges_bytes (ys : list (N * N)) : bytes :=
+  flat_map (fun p => le_bytes 8 (fst p) ++ le_bytes 8 (snd p)) ys.
+Definition run_shortw (a : list N) : list N :=
+  let data := blob a in
+  let bs := arg a 3 in let op := arg a 4 in let cap := arg a 6 in
+  let k := okind_of (arg a 7) in
+  let q := skipn 8 a in
+  let t := mkTree (blen B3 data) bs in
+  if op =? 0 then let '(r, out) := encode_ranges_validated B3 data (intact k data bs) q in limit_out cap (enc_rc r) out
+  else if op =? 1 then let '(r, out) := encode_ranges B3 data (intact k data bs) q in limit_out cap (enc_rc r) out
+  else if op =? 2 then
+    match outboard_post_order B3 t data with
+    | (Ok _, out, _) => limit_out cap [0; 0] out
+    | _ => [PANIC]
+    end
+  else
+    let k' := if arg a 7 =? 1 then PostIO else PreIO in
+    if op =? 3 then let '(r, out) := encode_ranges_validated B3 data (intact k' data bs) q in enc_rc r ++ [blen B3 out; dg out]
+    else let '(ys, r) := valid_ranges B3 (intact k' data bs) data q in
+         let out := ranges_bytes ys in
+         (match r with Ok _ => [0; 0] | Err e => [6; kcode e] | Panic => [PANIC; 0] end) ++ [blen B3 out; dg out].
+Definition holds_shortw (a o : list N) : bool :=
+  let data := blob a in
+  let bs := arg a 3 in let op := arg a 4 in let cap := arg a 6 in
+  let q := skipn 8 a in
+  negb (existsb (fun x => x =? PANIC) o) &&
+  if (op =? 0) || (op =? 3) then list_eqb o (limit_out (if op =? 0 then cap else 18446744073709551615) [0; 0] (flat B3 (honest B3 data bs q)))
+  else if op =? 2 then list_eqb o (limit_out cap [0; 0] (spec_outboard B3 true data bs))
+  else true.
